@@ -341,7 +341,24 @@ def run_history(ctx: Ctx, sources: dict[str, str], hist: list[dict[str, Any]], c
                 ctx.count("clock_advances")
         if shared != fresh:
             return i, shared, fresh
+        # absolute clock oracle: module-level caches are shared by the "fresh" twin too,
+        # so time-dependent values are also compared with the harness clock itself
+        if st.get("tpl") == "now" and st["op"] in ("render", "render_async", "reload", "pkg_render", "pkg_parse") \
+                and shared[0] == "ok" and sources.get("now") == TEMPLATES["now"]:
+            want = expected_now(t0)
+            if record:
+                ctx.count("clock_oracle_checks")
+            if shared[1] != want:
+                return i, shared, ("ok", want, "clock-oracle")
     return None
+
+
+def expected_now(t: float) -> str:
+    import datetime as _dt
+
+    d = _dt.datetime.fromtimestamp(t)
+    return "|".join([d.strftime("%Y-%m-%d %H:%M:%S"), str(d.date()), d.strftime("%s"), d.strftime("%Y%j"),
+                     d.strftime("%H%M%S")])
 
 
 def minimise(sources: dict[str, str], hist: list[dict[str, Any]], idx: int, caching: bool) -> list[dict[str, Any]]:
@@ -390,6 +407,14 @@ def check_history(ctx: Ctx, sources: dict[str, str], hist: list[dict[str, Any]],
     last = small[-1]
     tname = last.get("tpl", "") if origin == "fixtures" else origin
     same_env = all(s.get("env", "A") == last.get("env", "A") for s in small[:-1] if "env" in s) if len(small) > 1 else True
+    if len(fresh) == 3 and fresh[2] == "clock-oracle":
+        got, want = shared[1].split("|"), fresh[1].split("|")
+        fields = ["now|date", "today", "'now'|date:%s", "'today'|date:%Y%j", "'now'|date:%H%M%S"]
+        bad = [f for f, a, b in zip(fields, got, want) if a != b]
+        ctx.violation(f"clock:stale-time-value:{','.join(bad)}", f"rendered {shared[1]!r}, clock says {fresh[1]!r}",
+                      {"sources": {"now": sources["now"]}, "history": small, "caching": caching,
+                       "shared": list(shared), "fresh": list(fresh)})
+        return
     key = (f"state-leak:{'>'.join(_opname(s) for s in small)}:{tname}"
            f"{'' if same_env else ':across-environments'}{':advance' if any(s.get('advance') for s in small) and tname in ('now',) else ''}")
     ctx.violation(key, f"step {idx}: shared={shared!r} fresh={fresh!r}",
@@ -477,7 +502,7 @@ def floors(tier: str) -> dict[str, int]:
     k = 1 if tier == "quick" else 15
     return {"steps_compared": 5000 * k, "faults_injected": 500 * k, "faults_that_aborted_a_render": 150 * k,
             "schedules_explored": 500 * k, "clock_advances": 1000 * k, "configure_steps": 200 * k,
-            "clock_selftest_ok": 1, "set:ops": 10}
+            "clock_selftest_ok": 1, "set:ops": 10, "clock_oracle_checks": 100 * k}
 
 
 def run_shard(spec: dict[str, Any], ctx: Ctx) -> None:
